@@ -1,4 +1,76 @@
 import IslaVerif.Model.Intervals
+import IslaVerif.Proofs.Regex
+import IslaVerif.Proofs.C15a
+import IslaVerif.Proofs.C15b
+/-
+C15 — integer intervals inferred from a regex are exactly the numbers it matches; compressing a
+concatenation never changes the language.
+`Lang` (Proofs/RegexLang.lean) is the SMT-LIB denotation of the regex AST; `Exact r I`, `Bounded`,
+`Separated`, `Shape0` are defined in Proofs/C15b.lean.
+-/
 namespace IslaVerif.C15
-theorem placeholder : True := trivial
+open IslaVerif IslaVerif.Re IslaVerif.Intervals
+
+/-- the executable matcher used as oracle by the checks decides the denotation, for every regex
+(union, concatenation, star, plus, option, bounded loops, complement, intersection, difference) -/
+theorem matchB_iff (r : Re) (w : List Char) : Re.matchB r w = true ↔ Lang r w := Re.matchB_iff' r w
+
+/-- rewriting a concatenation into its compressed form never changes the matched language:
+for ALL lists of regular expressions -/
+theorem compress_lang (rs : List Re) (w : List Char) : LangCat (compress rs) w ↔ LangCat rs w :=
+  compress_lang' rs w
+
+/-- flattening nested concatenations (`z3_split_at_operator`) keeps the language -/
+theorem splitConcat_lang (r : Re) (w : List Char) : LangCat (splitConcat r) w ↔ Lang r w :=
+  splitConcat_lang' r w
+
+/-- `merge_intervals` denotes the union of its arguments … -/
+theorem mergeIntervals_mem (ls : List (List Iv)) (hne : ls ≠ []) (hb : ∀ l ∈ ls, Bounded l) (n : Int) :
+    ∃ m, mergeIntervals (ls.map some) = some m ∧ (inIvs m n = true ↔ ∃ l ∈ ls, inIvs l n = true) :=
+  mergeIntervals_mem' ls hne hb n
+
+/-- … its result is sorted and the intervals are separated (never adjacent or overlapping) -/
+theorem mergeIntervals_shape (ls : List (List Iv)) (m : List Iv) (hb : ∀ l ∈ ls, Bounded l)
+    (h : mergeIntervals (ls.map some) = some m) : Bounded m ∧ Separated m :=
+  mergeIntervals_shape' ls m hb h
+
+theorem mergeIntervals_none (ls : List (Option (List Iv))) (h : Option.none ∈ ls) :
+    mergeIntervals ls = Option.none := mergeIntervals_none' ls h
+
+/-- PARTIAL (the full statement would quantify over the whole documented shape, including the four
+sequence forms): on the concatenation-free part of the shape — digits, ordered digit ranges, zero
+sequences, full digit sequences and arbitrary unions of these — the inference always answers and the
+union of its intervals is exactly the set of integer values of the matched strings.
+What is missing: the concatenation (sign / zero-padding / [1-9][0-9]*) cases, for which the real code
+has the known finding `inexact:sign-not-leading`; they are covered by the probing search only. -/
+theorem intervals_exact_partial (r : Re) (h : Shape0 r) :
+    ∃ I, numericIntervals r = some I ∧ Bounded I ∧ Exact r I := intervals_exact_shape0' r h
+
+/-- a proved counterexample to the full statement for today's code: a regex of the documented shape
+(zero padding followed by a signed number) whose inferred intervals contain −5 although the only
+string it matches is "0-5", which has no integer value -/
+theorem sign_not_leading_counterexample :
+    numericIntervals (.concat [.str ['0'], .concat [.str ['-'], .str ['5']]]) = some [(-5, -5)] ∧
+    (∀ s, Re.matchB (.concat [.str ['0'], .concat [.str ['-'], .str ['5']]]) s = true → s = "0-5".toList) ∧
+    intVal "0-5".toList = Option.none := by
+  refine ⟨by decide, ?_, by decide⟩
+  intro s hs
+  have := (Re.matchB_iff' _ s).1 hs
+  simp only [Lang, LangCat] at this
+  obtain ⟨u, v, rfl, hu, v1, v2, rfl, ⟨a, b, rfl, ha, c, d, rfl, hc, hd⟩, hv2⟩ := this
+  subst hu ha hc hd hv2
+  rfl
+
+/-! non-vacuity -/
+example : Shape0 (.union [.str ['3'], .range ['1'] ['2'], .plus digitRange09]) :=
+  .union _ (by simp) (by
+    intro r hr
+    simp only [List.mem_cons, List.mem_nil_iff, or_false] at hr
+    rcases hr with rfl | rfl | rfl
+    · exact .digit '3' (by decide)
+    · exact .range '1' '2' (by decide) (by decide) (by decide)
+    · exact .fullPlus)
+example : numericIntervals (.union [.str ['6'], .range ['1'] ['4']]) = some [(1, 4), (6, 6)] := by decide
+example : Re.beqL (compress [.star (.str ['a']), .str ['a'], .plus (.str ['a'])]) [.str ['a'], .plus (.str ['a'])] = true := by decide
+
 end IslaVerif.C15
